@@ -286,8 +286,22 @@ pub open spec fn le4(c: Seq<u8>, i: int) -> int {
 pub open spec fn le8(c: Seq<u8>, i: int) -> int {
     vstd::bytes::spec_u64_from_le_bytes(seq![c[i], c[i + 1], c[i + 2], c[i + 3], c[i + 4], c[i + 5], c[i + 6], c[i + 7]]) as int
 }
+/// content of a text argument (digits, float syntax, quoting/escapes, ...): judged only through the
+/// assumed specs of the formatting shims
+pub uninterp spec fn text_content_ok(cls: ArgClass, t: Seq<u8>) -> bool;
+pub open spec fn no_nl(t: Seq<u8>, a: int, b: int) -> bool { forall|i: int| a <= i < b ==> t[i] != 0x0au8 }
+/// shape of a text argument: newline-terminated, no other newline (exactly one other for the
+/// two-line arguments of GLOBAL / INST) -- this is what makes text arguments self-delimiting
+pub open spec fn line_shape(cls: ArgClass, t: Seq<u8>) -> bool {
+    &&& t.len() >= 1 && t[t.len() - 1] == 0x0au8
+    &&& if cls == ArgClass::LinePairNl {
+            exists|j: int| 0 <= j < t.len() - 1 && #[trigger] t[j] == 0x0au8 && no_nl(t, 0, j) && no_nl(t, j + 1, t.len() - 1)
+        } else {
+            no_nl(t, 0, t.len() - 1)
+        }
+}
 /// t is a complete, well-formed newline-terminated argument of the given text class
-pub uninterp spec fn text_ok(cls: ArgClass, t: Seq<u8>) -> bool;
+pub open spec fn text_ok(cls: ArgClass, t: Seq<u8>) -> bool { line_shape(cls, t) && text_content_ok(cls, t) }
 
 pub open spec fn enc_ok(op: OpcodeKind, c: Seq<u8>) -> bool {
     &&& c.len() >= 1 && c[0] == ref_code(op) as u8
@@ -304,6 +318,180 @@ pub open spec fn enc_ok(op: OpcodeKind, c: Seq<u8>) -> bool {
         ArgClass::Counted4S => c.len() >= 5 && c.len() == 5 + le4(c, 1) && le4(c, 1) < 0x8000_0000,
         ArgClass::Counted8 => c.len() >= 9 && c.len() == 9 + le8(c, 1),
         cls => c.len() >= 2 && text_ok(cls, c.subrange(1, c.len() as int)),
+    }
+}
+
+// ---------------------------------------------------------------------------------------------
+// Framing: a left-to-right lexer that knows only the opcode table re-discovers exactly the chunk
+// boundaries (and opcodes) the emitters produced.  `lex_len(s, p)` is the length such a lexer reads at
+// offset p; it looks at the opcode byte, at a length prefix, or scans for the terminating newline(s).
+pub open spec fn after_nl(s: Seq<u8>, from: int) -> int
+    decreases s.len() - from
+{
+    if from < 0 || from >= s.len() { s.len() as int + 1 } else if s[from] == 0x0au8 { from + 1 } else { after_nl(s, from + 1) }
+}
+pub open spec fn lex_len(s: Seq<u8>, p: int) -> int {
+    match ref_arg(ref_op_of_byte(s[p])) {
+        ArgClass::NoArg => 1,
+        ArgClass::U1 => 2,
+        ArgClass::U2 => 3,
+        ArgClass::I4 => 5,
+        ArgClass::U4 => 5,
+        ArgClass::U8 => 9,
+        ArgClass::F8 => 9,
+        ArgClass::Counted1 => 2 + s[p + 1],
+        ArgClass::Counted4 => 5 + le4(s, p + 1),
+        ArgClass::Counted4S => 5 + le4(s, p + 1),
+        ArgClass::Counted8 => 9 + le8(s, p + 1),
+        ArgClass::LinePairNl => after_nl(s, after_nl(s, p + 1)) - p,
+        _ => after_nl(s, p + 1) - p,
+    }
+}
+pub proof fn lemma_after_nl(s: Seq<u8>, from: int, k: int)
+    requires 0 <= from <= k < s.len(), s[k] == 0x0au8, forall|i: int| from <= i < k ==> s[i] != 0x0au8
+    ensures after_nl(s, from) == k + 1
+    decreases k - from
+{
+    if from < k { lemma_after_nl(s, from + 1, k); }
+}
+/// one chunk: if `c` (a well-formed encoding of `op`) sits at offset p of s, the lexer reads `op` and |c| bytes
+pub proof fn lemma_lex_one(s: Seq<u8>, p: int, op: OpcodeKind, c: Seq<u8>)
+    requires 0 <= p, p + c.len() <= s.len(), s.subrange(p, p + c.len()) == c, enc_ok(op, c)
+    ensures ref_op_of_byte(s[p]) == op, lex_len(s, p) == c.len()
+{
+    assert(s[p] == c[0]) by { assert(s.subrange(p, p + c.len())[0] == s[p]); }
+    lemma_op_of_byte_ref(op);
+    assert forall|i: int| 0 <= i < c.len() implies s[p + i] == #[trigger] c[i] by {
+        assert(s.subrange(p, p + c.len())[i] == s[p + i]);
+    }
+    let cls = ref_arg(op);
+    if cls == ArgClass::Counted4 || cls == ArgClass::Counted4S {
+        assert(c[1] == s[p + 1] && c[2] == s[p + 2] && c[3] == s[p + 3] && c[4] == s[p + 4]);
+        assert(seq![s[p + 1], s[p + 2], s[p + 3], s[p + 4]] =~= seq![c[1], c[2], c[3], c[4]]);
+    } else if cls == ArgClass::Counted8 {
+        assert(c[1] == s[p + 1] && c[2] == s[p + 2] && c[3] == s[p + 3] && c[4] == s[p + 4]
+            && c[5] == s[p + 5] && c[6] == s[p + 6] && c[7] == s[p + 7] && c[8] == s[p + 8]);
+        assert(seq![s[p + 1], s[p + 2], s[p + 3], s[p + 4], s[p + 5], s[p + 6], s[p + 7], s[p + 8]]
+            =~= seq![c[1], c[2], c[3], c[4], c[5], c[6], c[7], c[8]]);
+    } else if cls == ArgClass::Counted1 {
+        assert(c[1] == s[p + 1]);
+    } else if cls == ArgClass::NoArg || cls == ArgClass::U1 || cls == ArgClass::U2 || cls == ArgClass::I4
+        || cls == ArgClass::U4 || cls == ArgClass::U8 || cls == ArgClass::F8 {
+    } else {
+        // text classes: t = c[1..] is newline terminated with the prescribed number of inner newlines
+        let t = c.subrange(1, c.len() as int);
+        let n = t.len() as int;
+        assert(forall|i: int| 0 <= i < n ==> t[i] == s[p + 1 + i]) by {
+            assert forall|i: int| 0 <= i < n implies t[i] == s[p + 1 + i] by { assert(t[i] == c[1 + i]); }
+        }
+        if cls == ArgClass::LinePairNl {
+            let j = choose|j: int| 0 <= j < n - 1 && #[trigger] t[j] == 0x0au8 && no_nl(t, 0, j) && no_nl(t, j + 1, n - 1);
+            assert forall|i: int| p + 1 <= i < p + 1 + j implies s[i] != 0x0au8 by { assert(t[i - p - 1] == s[i]); }
+            assert forall|i: int| p + 2 + j <= i < p + n implies s[i] != 0x0au8 by { assert(t[i - p - 1] == s[i]); }
+            assert(s[p + 1 + j] == t[j] && s[p + n] == t[n - 1]);
+            lemma_after_nl(s, p + 1, p + 1 + j);
+            lemma_after_nl(s, p + 2 + j, p + n);
+        } else {
+            assert forall|i: int| p + 1 <= i < p + n implies s[i] != 0x0au8 by { assert(t[i - p - 1] == s[i]); }
+            assert(s[p + n] == t[n - 1]);
+            lemma_after_nl(s, p + 1, p + n);
+        }
+    }
+}
+pub proof fn lemma_op_of_byte_ref(op: OpcodeKind)
+    ensures ref_op_of_byte(ref_code(op) as u8) == op
+{
+}
+
+/// start offset of chunk i inside flat(chunks)
+pub open spec fn offs(chunks: Seq<Seq<u8>>, i: int) -> int { flat(chunks.take(i)).len() as int }
+
+pub proof fn lemma_flat_chunk_at(chunks: Seq<Seq<u8>>, i: int)
+    requires 0 <= i < chunks.len()
+    ensures
+        offs(chunks, i) + chunks[i].len() == offs(chunks, i + 1),
+        offs(chunks, i + 1) <= flat(chunks).len(),
+        flat(chunks).subrange(offs(chunks, i), offs(chunks, i + 1)) == chunks[i],
+    decreases chunks.len()
+{
+    let n = chunks.len() as int;
+    let d = chunks.drop_last();
+    assert(chunks.take(n) =~= chunks);
+    if i == n - 1 {
+        assert(chunks.take(i) =~= d);
+        assert(flat(chunks).subrange(offs(chunks, i), offs(chunks, i + 1)) =~= chunks[i]);
+    } else {
+        lemma_flat_chunk_at(d, i);
+        assert(chunks.take(i) =~= d.take(i));
+        assert(chunks.take(i + 1) =~= d.take(i + 1));
+        assert(d[i] == chunks[i]);
+        assert(flat(chunks).subrange(offs(chunks, i), offs(chunks, i + 1)) =~= flat(d).subrange(offs(d, i), offs(d, i + 1)));
+    }
+}
+
+/// FRAMING THEOREM: if the bytes of s from offset p on are the concatenation of chunks, each a
+/// well-formed encoding of the opcode recorded for it, then a lexer started at p visits exactly the
+/// chunk boundaries, reads exactly the recorded opcodes in order, and ends exactly at the end of s.
+pub proof fn lemma_framing(s: Seq<u8>, p: int, chunks: Seq<Seq<u8>>, ops: Seq<OpcodeKind>)
+    requires
+        0 <= p <= s.len(),
+        s.subrange(p, s.len() as int) == flat(chunks),
+        chunks.len() == ops.len(),
+        forall|i: int| 0 <= i < chunks.len() ==> enc_ok(#[trigger] ops[i], chunks[i]),
+    ensures
+        forall|i: int| 0 <= i < chunks.len() ==>
+            ref_op_of_byte(s[p + offs(chunks, i)]) == #[trigger] ops[i]
+            && lex_len(s, p + offs(chunks, i)) == chunks[i].len()
+            && p + offs(chunks, i) + lex_len(s, p + offs(chunks, i)) == p + offs(chunks, i + 1),
+        p + offs(chunks, chunks.len() as int) == s.len(),
+{
+    assert(chunks.take(chunks.len() as int) =~= chunks);
+    assert(flat(chunks).len() == s.len() - p);
+    assert forall|i: int| 0 <= i < chunks.len() implies
+        ref_op_of_byte(s[p + offs(chunks, i)]) == #[trigger] ops[i]
+        && lex_len(s, p + offs(chunks, i)) == chunks[i].len()
+        && p + offs(chunks, i) + lex_len(s, p + offs(chunks, i)) == p + offs(chunks, i + 1) by {
+        lemma_flat_chunk_at(chunks, i);
+        let a = offs(chunks, i);
+        let b = offs(chunks, i + 1);
+        assert(s.subrange(p + a, p + b) =~= flat(chunks).subrange(a, b)) by {
+            assert forall|k: int| 0 <= k < b - a implies s.subrange(p + a, p + b)[k] == flat(chunks).subrange(a, b)[k] by {
+                assert(s.subrange(p, s.len() as int)[a + k] == s[p + a + k]);
+            }
+        }
+        lemma_lex_one(s, p + a, ops[i], chunks[i]);
+    }
+}
+
+pub open spec fn ops_of(t: Trace) -> Seq<OpcodeKind> { Seq::new(t.len(), |i: int| t[i].0) }
+/// the collapse tail as one-byte chunks
+pub open spec fn singles(t: Trace) -> Seq<Seq<u8>> { Seq::new(t.len(), |i: int| seq![ref_code(t[i].0) as u8]) }
+
+pub proof fn lemma_flat_concat(a: Seq<Seq<u8>>, b: Seq<Seq<u8>>)
+    ensures flat(a + b) == flat(a) + flat(b)
+    decreases b.len()
+{
+    if b.len() == 0 {
+        assert(a + b =~= a);
+        assert(flat(a) + flat(b) =~= flat(a));
+    } else {
+        lemma_flat_concat(a, b.drop_last());
+        assert((a + b).drop_last() =~= a + b.drop_last());
+        assert((a + b).last() == b.last());
+        assert(flat(a + b) =~= flat(a) + flat(b));
+    }
+}
+pub proof fn lemma_flat_singles(t: Trace)
+    ensures flat(singles(t)) == codes(t)
+    decreases t.len()
+{
+    if t.len() == 0 {
+        assert(singles(t) =~= Seq::<Seq<u8>>::empty());
+    } else {
+        lemma_flat_singles(t.drop_last());
+        assert(singles(t).drop_last() =~= singles(t.drop_last()));
+        assert(singles(t).last() == seq![ref_code(t.last().0) as u8]);
+        assert(flat(singles(t)) =~= codes(t));
     }
 }
 
